@@ -91,6 +91,29 @@ w(f"Totals: {n} seeded changes, {det} detected by the quick check of the propert
 text = "\n".join(out)
 p = os.path.join(ROOT, "DESIGN.md")
 s = open(p).read()
+# ---- benign (behaviour-preserving) refactors: every check must stay silent
+try:
+    ben = json.load(open(os.path.join(ROOT, "benign", "results.json")))
+except (OSError, ValueError):
+    ben = {}
+bl = ["| refactor | checks run | silent | inconclusive | alarms |", "|---|---|---|---|---|"]
+tot = [0, 0, 0, 0]
+for name in sorted(ben):
+    ch = ben[name].get("checks", {})
+    sil = sum(1 for c in ch.values() if c.get("exit") == 0)
+    inc = [k for k, c in ch.items() if c.get("exit") == 2]
+    al = [k for k, c in ch.items() if c.get("exit") == 1]
+    tot[0] += len(ch); tot[1] += sil; tot[2] += len(inc); tot[3] += len(al)
+    bl.append(f"| {name} | {len(ch)} | {sil} | {', '.join(inc) or '—'} | {', '.join(al) or '—'} |")
+bl.append(f"| **total ({len(ben)} refactors)** | {tot[0]} | {tot[1]} | {tot[2]} | {tot[3]} |")
+marker = "<!-- BENIGN RESULTS -->"
+endm = "<!-- END BENIGN RESULTS -->"
+if marker in s:
+    block = marker + "\n" + "\n".join(bl) + "\n" + endm
+    if endm in s:
+        s = s[:s.index(marker)] + block + s[s.index(endm) + len(endm):]
+    else:
+        s = s.replace(marker, block, 1)
 b, e = "<!-- BEGIN GENERATED TABLES -->", "<!-- END GENERATED TABLES -->"
 if b in s and e in s:
     s = s[:s.index(b) + len(b)] + "\n" + text + "\n" + s[s.index(e):]
